@@ -15,6 +15,7 @@ type Segment struct {
 	Kind string   // "path": entry to a normal exit, loops summarised as loop@pos | "iter": one iteration of the loop at Loop
 	Loop string   // position of the loop an "iter" segment belongs to
 	Exit bool     // the segment ends by leaving the function
+	How  string   // "next": ended at the next evaluation of the loop head; "done": left the loop (condition false or break); "exit": left the function
 	Syms []string // symbols in execution order
 	End  string   // position of the exit / loop
 	Ret  []Value
@@ -94,6 +95,7 @@ type seqRule struct {
 	maxDepth int
 	trackField string
 	init       kv
+	args       []Value
 }
 
 func (sr *seqRule) segments(root *Func) []Segment {
@@ -101,14 +103,14 @@ func (sr *seqRule) segments(root *Func) []Segment {
 	seen := map[string]bool{}
 	// state keys: "seq" symbols of the current straight-line piece; "stk"
 	// stack of enclosing loops "pos~prefix" joined by "|"; "T" tracked status
-	emit := func(kind, loop string, seqStr string, s kv, end string, ret []Value, exit bool) {
+	emit := func(kind, loop string, seqStr string, s kv, end string, ret []Value, exit bool, how string) {
 		syms := strings.Fields(strings.ReplaceAll(seqStr, ",", " "))
-		key := kind + "|" + loop + "|" + strings.Join(syms, ",") + "|" + valsKey(ret) + "|" + s.get("T") + fmt.Sprint(exit)
+		key := kind + "|" + loop + "|" + strings.Join(syms, ",") + "|" + valsKey(ret) + "|" + s.get("T") + fmt.Sprint(exit) + how
 		if seen[key] {
 			return
 		}
 		seen[key] = true
-		segs = append(segs, Segment{Kind: kind, Loop: loop, Syms: syms, End: end, Ret: ret, T: s.get("T"), Exit: exit})
+		segs = append(segs, Segment{Kind: kind, Loop: loop, Syms: syms, End: end, Ret: ret, T: s.get("T"), Exit: exit, How: how})
 	}
 	app := func(s kv, sym string) kv {
 		if sym == "" {
@@ -135,14 +137,14 @@ func (sr *seqRule) segments(root *Func) []Segment {
 		j := strings.Index(last, "~")
 		return last[:j], last[j+1:], rest
 	}
-	tr := &traceRule{c: sr.c, rule: sr.rule, noInline: sr.noInline, maxDepth: sr.maxDepth, relevant: sr.relevant, trackField: sr.trackField}
+	tr := &traceRule{c: sr.c, rule: sr.rule, noInline: sr.noInline, maxDepth: sr.maxDepth, relevant: sr.relevant, trackField: sr.trackField, args: sr.args}
 	tr.classify = sr.classify
 	tr.step = func(s kv, ev Ev) kv {
 		switch {
 		case strings.HasPrefix(ev.Name, "__iter@"):
 			pos := ev.Name[len("__iter@"):]
 			if tp, _, _ := top(s); tp == pos {
-				emit("iter", pos, s.get("seq"), s, pos, nil, false)
+				emit("iter", pos, s.get("seq"), s, pos, nil, false, "next")
 				return s.set("seq", "")
 			}
 			entry := pos + "~" + s.get("seq")
@@ -153,7 +155,7 @@ func (sr *seqRule) segments(root *Func) []Segment {
 		case strings.HasPrefix(ev.Name, "__done@"):
 			pos := ev.Name[len("__done@"):]
 			if tp, prefix, rest := top(s); tp == pos {
-				emit("iter", pos, s.get("seq"), s, pos, nil, false)
+				emit("iter", pos, s.get("seq"), s, pos, nil, false, "done")
 				s = s.set("stk", rest).set("seq", prefix)
 			}
 			return app(s, "loop@"+pos)
@@ -186,10 +188,10 @@ func (sr *seqRule) segments(root *Func) []Segment {
 		end := sr.c.retPos(fr, ret)
 		if tp, _, _ := top(s); tp != "" {
 			// return from inside a loop iteration
-			emit("iter", tp, s.get("seq"), s, end, vals, true)
+			emit("iter", tp, s.get("seq"), s, end, vals, true, "exit")
 			return
 		}
-		emit("path", "", s.get("seq"), s, end, vals, true)
+		emit("path", "", s.get("seq"), s, end, vals, true, "exit")
 	}
 	tr.run(root, sr.init)
 	return segs
